@@ -347,9 +347,56 @@ func c14lang(c *core.Ctx) {
 			c.Unk("C14.c", "LANG", fl.fn+":guard", c.P.Pos(fn.Pos()), "cannot compile guard: "+err.Error())
 			continue
 		}
+		// optional second stage: <global regexp>.MatchString(stmt), the global initialised by
+		// regexp.MustCompile(<constant>). The filter then returns the match result, and only on
+		// paths where a substring test succeeded; any other shape cannot be read.
+		var regexGuards []*an.Lang
+		shapeOK := true
+		for _, call := range an.CallsTo(fn, false, "regexp.Regexp.MatchString") {
+			pat := ""
+			if u, ok := call.Common().Args[0].(*ssa.UnOp); ok {
+				if g, ok := u.X.(*ssa.Global); ok {
+					pat = globalRegexConst(c, "command/sql", g.Name())
+				}
+			}
+			if pat == "" || an.Unwrap(call.Common().Args[1]) != ssa.Value(fn.Params[0]) {
+				shapeOK = false
+				break
+			}
+			// applied to the lower-cased text: case-insensitive on the original
+			rg, err := an.CompileLang(an.Search(`(?i:` + pat + `)`))
+			if err != nil {
+				shapeOK = false
+				break
+			}
+			regexGuards = append(regexGuards, rg)
+		}
+		if shapeOK && len(regexGuards) > 0 {
+			// every return is false or a match result
+			for _, r := range an.Returns(fn) {
+				v := r.Results[0]
+				ok := false
+				if b, isB := an.ConstBool(v); isB && !b {
+					ok = true
+				}
+				if an.Mentions(v, func(x ssa.Value) bool {
+					call, isC := x.(*ssa.Call)
+					return isC && an.IsCall(call, "regexp.Regexp.MatchString")
+				}) {
+					ok = true
+				}
+				if !ok {
+					shapeOK = false
+				}
+			}
+		}
+		if !shapeOK {
+			c.Unk("C14.c", "LANG", fl.fn+":guard", c.P.Pos(fn.Pos()), "the pre-filter's second stage is not a constant regular expression applied to the statement whose result is returned; the LANG rule cannot read it")
+			continue
+		}
 		for _, f := range fl.funcs {
 			cells++
-			refExpr := `(?is:.*)(?:^|[^A-Za-z0-9_])(?i:` + f + `)` + ws + `\((?s:.*)`
+			refExpr :=`(?is:.*)(?:^|[^A-Za-z0-9_])(?i:` + f + `)` + ws + `\((?s:.*)`
 			ref, err := an.CompileLang(refExpr)
 			if err != nil {
 				c.Unk("C14.c", "LANG", fl.fn+":"+f, c.P.Pos(fn.Pos()), "cannot compile reference: "+err.Error())
@@ -359,6 +406,24 @@ func c14lang(c *core.Ctx) {
 			if err != nil {
 				c.Unk("C14.c", "LANG", fl.fn+":"+f, c.P.Pos(fn.Pos()), err.Error())
 				continue
+			}
+			// a second stage (regular expression run after the substring test): the filter accepts the
+			// intersection, so the reference language must be included in that stage too
+			for _, rg := range regexGuards {
+				if !incl {
+					break
+				}
+				w2, incl2, st2, err2 := an.NotIncluded(ref, rg, 400000)
+				if err2 != nil {
+					c.Unk("C14.c", "LANG", fl.fn+":"+f, c.P.Pos(fn.Pos()), err2.Error())
+					incl = false
+					w = ""
+					break
+				}
+				states += st2
+				if !incl2 {
+					incl, w = false, w2
+				}
 			}
 			c.Sites += states
 			if incl {
